@@ -753,7 +753,45 @@ CORPUS2 = [
 ]
 
 
+# third and fourth corpus decks: a lattice FILL array followed by more keywords
+# (seeded change C14_E: tokens consumed by the shorthand) and LIKE n BUT RHO=
+# (seeded change C14_F: density of the BUT part not normalised)
+CORPUS3_BASE = ('''corpus lattice\n80 0 -87 fill=3 imp:n=1\n'''
+                '''81 0 -81 82 -83 84 lat=1 u=3 fill=0:1 0:1 0:0 4 4 4 5 imp:n=1\n'''
+                '''82 1 -1.0 -85 u=4 imp:n=1\n83 0 85 u=4 imp:n=1\n'''
+                '''84 1 -2.0 -86 u=5 imp:n=1\n85 0 86 u=5 imp:n=1\n86 0 87 imp:n=0\n\n'''
+                '''81 px 1.0\n82 px -1.0\n83 py 1.0\n84 py -1.0\n85 so 0.5\n86 so 0.25\n'''
+                '''87 rpp -1.0 3.0 -1.0 3.0 -5.0 5.0\n\nm1 1001 1.0\n''')
+CORPUS3 = [
+    ('FILL array 4 2r 5 followed by imp:n', lambda t: t.replace('0:0 4 4 4 5 imp', '0:0 4 2r 5 imp')),
+    ('FILL array 4 2R 5, then u= and lat= after it',
+     lambda t: t.replace('lat=1 u=3 fill=0:1 0:1 0:0 4 4 4 5 imp:n=1',
+                         'fill=0:1 0:1 0:0 4 2R 5 lat=1 u=3 imp:n=1')),
+    ('FILL array 4 r r 5', lambda t: t.replace('0:0 4 4 4 5 imp', '0:0 4 r r 5 imp')),
+]
+CORPUS4_BASE = ('''corpus like but rho\n1 1 -1.0 -1 imp:n=1\n'''
+                '''2 like 1 but trcl=(20 0 0) rho=-2.7 imp:n=1\n'''
+                '''3 0 1 #2 -2 imp:n=1\n4 0 2 imp:n=0\n\n1 so 5.0\n2 so 50.0\n\nm1 13027 1.0\n''')
+CORPUS4 = [
+    ('rho=-2.70', lambda t: t.replace('rho=-2.7 ', 'rho=-2.70 ')),
+    ('RHO=-2.7D+0', lambda t: t.replace('rho=-2.7 ', 'RHO=-2.7D+0 ')),
+    ('rho=-.27+1', lambda t: t.replace('rho=-2.7 ', 'rho=-.27+1 ')),
+    ('rho -2.700e0 (no equal sign)', lambda t: t.replace('rho=-2.7 ', 'rho -2.700e0 ')),
+]
+
+
 def run_corpus(res):
+    for tag, base_text, cases in (('corpus3', CORPUS3_BASE, CORPUS3),
+                                  ('corpus4', CORPUS4_BASE, CORPUS4)):
+        base_n = outcome(convert(base_text))
+        res.count(tag + ':base:' + str(base_n[0]))
+        for label, rewrite in cases:
+            text = rewrite(base_text)
+            assert text != base_text, label
+            res.seen(text)
+            ok = compare(base_text, base_n, text,
+                         {'used': ['corpus: ' + label], 'stream': 'corpus'}, True, res)
+            res.count(tag + ':' + ('same' if ok else 'differs'))
     base2 = outcome(convert(CORPUS2_BASE))
     res.count('corpus2:base:' + str(base2[0]))
     for label, rewrite in CORPUS2:
